@@ -200,6 +200,8 @@ NodeFields(b, k) ==
        own \cup {<<PayloadLo(k) + 4 * w, 4>> : w \in 0..((IF p > 8 THEN 8 ELSE p) \div 4 - 1)}
            \cup UNION {NodeFields(b, ks.kids[i]) : i \in 1..Len(ks.kids)}
   ELSE own \cup {<<PayloadLo(k) + 4 * w, 4>> : w \in 0..((IF k.s - k.h > 24 THEN 24 ELSE k.s - k.h) \div 4 - 1)}
+           \* 64-bit quantities (co64 entries, version-1 times, base data offsets) at every word position
+           \cup {<<PayloadLo(k) + 4 * w, 8>> : w \in 0..((IF k.s - k.h > 24 THEN 24 ELSE k.s - k.h) \div 4 - 2)}
 FieldMapOf(bytes) ==
   LET ks == Kids(bytes, 0, Len(bytes)) IN
   UNION {IF ks.kids[i].t = MDAT THEN {<<ks.kids[i].o, 4>>} ELSE NodeFields(bytes, ks.kids[i]) : i \in 1..Len(ks.kids)}
